@@ -1,4 +1,5 @@
 import Httpcache.Proofs.Store
+import Httpcache.Proofs.Csv
 /-
 C05 — Cached responses are byte-faithful copies of the origin response.
 
@@ -34,6 +35,22 @@ theorem hop_by_hop_removed (h : Header) (n : Str) (hn : n ∈ hopByHopHeaders h)
   have := hp.2
   rw [hpn] at this
   simp [hn] at this
+
+/-- connection options are tokens: a name that stands after a comma of a Connection field line is named, WHATEVER
+    bytes stand before that comma (a stray quote in the first member hides nothing — fifth hunt: `Connection: x", X-Hop`
+    kept X-Hop in the stored response and, from a 304, merged it into one) -/
+theorem connection_names_after_a_comma (h : Header) (a b n : Str)
+    (hl : (a ++ ',' :: b) ∈ Header.values h sConnection) (hn : n ∈ fieldNames b) :
+    Header.has (removeHopByHop h) (canonicalHeaderKey n) = false := by
+  apply hop_by_hop_removed
+  unfold hopByHopHeaders
+  apply List.mem_append_right
+  rw [List.mem_flatMap]
+  refine ⟨_, hl, ?_⟩
+  rw [List.mem_map]
+  exact ⟨n, by rw [fieldNames_comma]; exact List.mem_append_right _ hn, rfl⟩
+
+example : canonicalHeaderKey (str% "x-hop") ∈ hopByHopHeaders [(sConnection, str% "x\", x-hop")] := by decide
 
 /-- what is written to the store for a reply: its status and body unchanged, its header fields
     minus the hop-by-hop ones — and nothing at all unless the body was read completely -/
